@@ -151,7 +151,9 @@ func mdVal(md metadata.MD) vc.Val { return valuesVal(url.Values(md)) }
 
 func mdqueryPart(w *vc.Writer, r *vc.Rand) {
 	n := vc.Scale(3000, 200000)
-	keys := []string{"x-a", "X-B", "a.b_c-d", "", "bad key", "k\x00", "ключ", "x[y]", "x]", "[", "x-a"}
+	keys := []string{"x-a", "X-B", "a.b_c-d", "", "bad key", "k\x00", "ключ", "x[y]", "x]", "[", "x-a",
+		// spellings that only Unicode case mapping turns into an ASCII key
+		"x-\u212a", "\u017fet-cookie", "x-\u0130d", "X-\u212aEY", "flow-\u0131d"}
 	vals := []string{"v", "hello world", "", "tab\there", "nl\n", "\x7f", "ünï", "~ok~", "a=b&c"}
 	params := []string{"", "", "_metadata", "md", "_m[x]"}
 	for i := 0; i < n; i++ {
